@@ -70,6 +70,7 @@ func shiftCheck(c *Ctx, fn *ssa.Function, name string, want [][3]string) int {
 	}
 	// the result is written element by element and handed back, nothing else: a copy() into it, or handing it to
 	// a helper, writes bytes the contributions below do not account for
+	var fastBlocks []*ssa.BasicBlock // blocks of a whole-byte copy that stands for the contributions at bit shift 0
 	if mk.Referrers() != nil {
 		for _, r := range *mk.Referrers() {
 			switch y := r.(type) {
@@ -78,10 +79,26 @@ func shiftCheck(c *Ctx, fn *ssa.Function, name string, want [][3]string) int {
 				if bi, ok := y.Call.Value.(*ssa.Builtin); ok && bi.Name() == "len" {
 					continue
 				}
+				if bi, ok := y.Call.Value.(*ssa.Builtin); ok && bi.Name() == "copy" && y.Call.Args[0] == ssa.Value(mk) {
+					why := wholeByteCopy(fn, env, mk, nil, y, want[0][0] == "-BS")
+					c.Check(why == "", "T-shift", name+"/whole-byte-copy", y.Pos(), "under bit shift 0 the copy moves exactly the bytes a shift by whole bytes keeps", name+": "+why)
+					fastBlocks = append(fastBlocks, y.Block())
+					continue
+				}
 				c.Undecided("T-shift", name+"/other-writes", y.Pos(), name+" hands its result buffer to "+y.Call.Value.Name()+": bytes written there are not read as shift contributions")
 				return 2
 			default:
 				what := fmt.Sprintf("%T", r)
+				if sl, ok := r.(*ssa.Slice); ok && sl.Referrers() != nil && len(*sl.Referrers()) == 1 {
+					if call, ok := (*sl.Referrers())[0].(*ssa.Call); ok {
+						if bi, ok := call.Call.Value.(*ssa.Builtin); ok && bi.Name() == "copy" && call.Call.Args[0] == ssa.Value(sl) {
+							why := wholeByteCopy(fn, env, mk, sl, call, want[0][0] == "-BS")
+							c.Check(why == "", "T-shift", name+"/whole-byte-copy", call.Pos(), "under bit shift 0 the copy moves exactly the bytes a shift by whole bytes keeps", name+": "+why)
+							fastBlocks = append(fastBlocks, call.Block())
+							continue
+						}
+					}
+				}
 				if sl, ok := r.(*ssa.Slice); ok && sl.Referrers() != nil {
 					for _, r2 := range *sl.Referrers() {
 						if call, ok := r2.(*ssa.Call); ok {
@@ -107,6 +124,15 @@ func shiftCheck(c *Ctx, fn *ssa.Function, name string, want [][3]string) int {
 		for _, b := range fn.Blocks {
 			r, ok := b.Instrs[len(b.Instrs)-1].(*ssa.Return)
 			if !ok || loopHdr == nil || loopHdr.Dominates(b) {
+				continue
+			}
+			viaCopy := false
+			for _, fb := range fastBlocks {
+				if fb.Dominates(b) {
+					viaCopy = true // the bytes were moved by the whole-byte copy checked above
+				}
+			}
+			if viaCopy {
 				continue
 			}
 			early := ""
@@ -391,4 +417,82 @@ func substCounters(fn *ssa.Function, env *TermEnv, l *TLin, rename func(string) 
 		out = out.add(repl.scale(co), 1)
 	}
 	return out
+}
+
+// wholeByteCopy: copy(result[a:ah], x[b:bh]) standing for a shift by whole bytes. It must sit under bitShift == 0,
+// and on the grid (len 1..4, byteShift < len) move exactly the bytes the shift keeps: a left shift is
+// result[k] = x[k+BS] for k < len-BS (a = 0, b = BS), a right shift result[i] = x[i-BS] for i >= BS (a = BS,
+// b = 0), in both cases len-BS bytes. Returns "" or what differs.
+func wholeByteCopy(fn *ssa.Function, env *TermEnv, mk *ssa.MakeSlice, dst *ssa.Slice, call *ssa.Call, left bool) string {
+	const BS = "int((p1 / 8))"
+	const BIT = "uint((p1 % 8))"
+	guarded := false
+	for _, dc := range dominatingConds(call.Block()) {
+		a, flip := canonAtom(canonTerm(env.Term(dc.cond)))
+		if (a == "("+BIT+" == 0)" || a == "((p1 % 8) == 0)") && dc.truth != flip {
+			guarded = true
+		}
+	}
+	if !guarded {
+		return "a copy into the result that does not stand under bit shift == 0 (n % 8 == 0)"
+	}
+	src := call.Call.Args[1]
+	var srcSl *ssa.Slice
+	if sl, ok := src.(*ssa.Slice); ok {
+		srcSl, src = sl, sl.X
+	}
+	if src != ssa.Value(fn.Params[0]) {
+		return "the bytes copied into the result are not the operand's"
+	}
+	for ln := int64(1); ln <= 4; ln++ {
+		for bs := int64(0); bs < ln; bs++ {
+			asg := map[string]*big.Int{"len(p0)": big.NewInt(ln), BS: big.NewInt(bs), "p1": big.NewInt(8 * bs)}
+			bound := func(v ssa.Value, def int64) (int64, bool) {
+				if v == nil {
+					return def, true
+				}
+				r, ok := evalTerm(env.Term(v), asg)
+				if !ok {
+					return 0, false
+				}
+				return r.Int64(), true
+			}
+			a, ah, b, bh := int64(0), ln, int64(0), ln
+			ok := true
+			if dst != nil {
+				var o1, o2 bool
+				a, o1 = bound(dst.Low, 0)
+				ah, o2 = bound(dst.High, ln)
+				ok = ok && o1 && o2
+			}
+			if srcSl != nil {
+				var o1, o2 bool
+				b, o1 = bound(srcSl.Low, 0)
+				bh, o2 = bound(srcSl.High, ln)
+				ok = ok && o1 && o2
+			}
+			if !ok {
+				return "the bounds of the copy are not functions of len(x) and n/8"
+			}
+			if a < 0 || a > ah || ah > ln || b < 0 || b > bh || bh > ln {
+				return fmt.Sprintf("with len(x)=%d, n/8=%d the copy's slices are out of range (result[%d:%d], x[%d:%d])", ln, bs, a, ah, b, bh)
+			}
+			cnt := ah - a
+			if bh-b < cnt {
+				cnt = bh - b
+			}
+			wa, wb := int64(0), bs
+			if !left {
+				wa, wb = bs, 0
+			}
+			if a != wa || b != wb || cnt != ln-bs {
+				dir := "right"
+				if left {
+					dir = "left"
+				}
+				return fmt.Sprintf("with len(x)=%d, n/8=%d the copy moves %d bytes from x[%d:] to result[%d:]; a %s shift by whole bytes moves %d bytes from x[%d:] to result[%d:]", ln, bs, cnt, b, a, dir, ln-bs, wb, wa)
+			}
+		}
+	}
+	return ""
 }
